@@ -134,13 +134,14 @@ SPECS['C03'] = dict(
     trusted_base=TRUST,
     obligations=[
         smt('instrumentation-valid', 'harness.c03', 'v_instrumentation', 'instrumented workloop == original on concrete scripts', kind='validate'),
-        ch('worker-protocol', 'harness.c03', 'h_protocol', 'ACK(pid,time) before run, exactly one READY per job, quota, exit status, consumption guard',
-           timeout=(300, 1500)),
-        twin('worker-protocol', 'harness.c03', 'h_protocol_twin', 'a run ending with the recycle status exists'),
-        ch('worker-synack', 'harness.c03', 'h_synack', 'NACKed job never executed and not counted; ACKed job runs after the answer',
-           timeout=(300, 1500)),
-        twin('worker-synack', 'harness.c03', 'h_synack_twin', 'a run with a refused job exists'),
-    ],
+    ] + parts(ch('worker-protocol', 'harness.c03', 'h_protocol', 'ACK(pid,time) before run, exactly one READY per job, quota, exit status, '
+                 'consumption guard', timeout=(300, 1500)), 9)
+      + parts(twin('worker-protocol', 'harness.c03', 'h_protocol_twin', 'a run ending with the recycle status exists'), 9)
+      + [ch('worker-unpicklable', 'harness.c03', 'h_unpicklable', 'unserialisable result at any set of positions: exactly one '
+            'READY(False, MaybeEncodingError) for that job, loop continues', timeout=(200, 900), nontrivial_witness=True)]
+      + parts(ch('worker-synack', 'harness.c03', 'h_synack', 'NACKed job never executed and not counted; ACKed job runs after the answer',
+                 timeout=(300, 1500)), 4)
+      + parts(twin('worker-synack', 'harness.c03', 'h_synack_twin', 'a run with a refused job exists'), 4),
 )
 
 TIMEOUT_FUNCS = ['billiard.pool.TimeoutHandler.handle_event', 'TimeoutHandler.handle_timeouts', 'TimeoutHandler.on_hard_timeout',
@@ -194,8 +195,8 @@ SPECS['C06'] = dict(
                  'result was processed (also when the result handler runs between snapshot and check)', timeout=(300, 1500)), 16)
         + parts(twin('soft-limit', 'harness.c05', 'h_soft_twin', 'a run reaching the soft-expiry branch exists'), 16)
         + parts(ch('worker-soft', 'harness.c03', 'h_soft', 'handler runs inside task j: SoftTimeLimitExceeded seen by task j only; a task '
-                   'that catches it has its value delivered; other jobs unaffected', timeout=(300, 1500)), 8)
-        + parts(twin('worker-soft', 'harness.c03', 'h_soft_twin', 'a run with the signal inside a task exists'), 8)
+                   'that catches it has its value delivered; other jobs unaffected', timeout=(300, 1500)), 6)
+        + parts(twin('worker-soft', 'harness.c03', 'h_soft_twin', 'a run with the signal inside a task exists'), 6)
         + [smt('instrumentation-valid', 'harness.c03', 'v_instrumentation', 'instrumented workloop == original on concrete scripts', kind='validate')]
     ),
 )
